@@ -803,17 +803,18 @@ private theorem zipLocs_map (l : List Loc) :
   | cons a as ih => simp [zipLocs, ih]
 
 /-- what `text2nc.py` can convert without loss: every number is float32-representable (int32 for the
-location ids; times are stored as doubles) and not a missing-value code, observations and forecasts are
-present, probabilities / quantile values come with their thresholds / levels, an ensemble has at least one
-member, other fields have proper names, and the units are in display form (`%` or `$…$`). -/
+location ids; times are stored as doubles) and not a missing-value code, probabilities / quantile values come
+with their thresholds / levels, an ensemble has at least one member, other fields have proper names, and the
+units are in display form (`%` or `$…$`).  Observations and forecasts may each be present or absent (a verif
+file needs neither): nothing is assumed about `D.obs` / `D.fcst` beyond their numbers. -/
 structure Convertible (R : Rounding) (D : Dataset) : Prop where
   times : ∀ v ∈ D.times, Keeps id v
   leads : ∀ v ∈ D.leads, Keeps R.r32 v
   locs : ∀ l ∈ D.locs, Keeps R.i32 l.id ∧ Keeps R.r32 l.lat ∧ Keeps R.r32 l.lon ∧ Keeps R.r32 l.elev
   thresholds : ∀ v ∈ D.thresholds, Keeps R.r32 v
   quantiles : ∀ v ∈ D.quantiles, Keeps R.r32 v
-  obs : ∃ a, D.obs = some a ∧ ∀ v ∈ a.data, Keeps R.r32 v
-  fcst : ∃ a, D.fcst = some a ∧ ∀ v ∈ a.data, Keeps R.r32 v
+  obs : ∀ a, D.obs = some a → ∀ v ∈ a.data, Keeps R.r32 v
+  fcst : ∀ a, D.fcst = some a → ∀ v ∈ a.data, Keeps R.r32 v
   pit : ∀ a, D.pit = some a → ∀ v ∈ a.data, Keeps R.r32 v
   /-- an input without members has `ensemble = none` (the view `NcInput.dataset` / the harness take) -/
   ens : ∀ a, D.ensemble = some a → a.dims.getLastD 0 ≠ 0 ∧ ∀ v ∈ a.data, Keeps R.r32 v
@@ -861,10 +862,8 @@ private theorem t_lat : (text2nc R D).var? "lat" = some (storeVec R.r32 (D.locs.
 private theorem t_lon : (text2nc R D).var? "lon" = some (storeVec R.r32 (D.locs.map (·.lon))) := by t2n_tac "lon"
 private theorem t_alt : (text2nc R D).var? "altitude" = some (storeVec R.r32 (D.locs.map (·.elev))) := by
   t2n_tac "altitude"
-private theorem t_obs : (text2nc R D).var? "obs" = some (storeArr R.r32
-    (D.obs.getD (nanArr [D.times.length, D.leads.length, D.locs.length]))) := by t2n_tac "obs"
-private theorem t_fcst : (text2nc R D).var? "fcst" = some (storeArr R.r32
-    (D.fcst.getD (nanArr [D.times.length, D.leads.length, D.locs.length]))) := by t2n_tac "fcst"
+private theorem t_obs : (text2nc R D).var? "obs" = D.obs.map (storeArr R.r32) := by t2n_tac "obs"
+private theorem t_fcst : (text2nc R D).var? "fcst" = D.fcst.map (storeArr R.r32) := by t2n_tac "fcst"
 private theorem t_pit : (text2nc R D).var? "pit" = D.pit.map (storeArr R.r32) := by t2n_tac "pit"
 private theorem t_ens : (text2nc R D).var? "ensemble" =
     (D.ensemble.filter fun a => a.dims.getLastD 0 != 0).map (storeArr R.r32) := by t2n_tac "ensemble"
@@ -924,7 +923,9 @@ private theorem t_others : ((text2nc R D).vars.map (·.1)).filterMap (oth (text2
       ++ (optVar "x" ((if D.quantiles.isEmpty then none else some D.quantiles.length).map fun k =>
           storeArr R.r32 (D.x.getD (nanArr ([D.times.length, D.leads.length, D.locs.length] ++ [k]))))).map (·.1)
       ++ (optVar "ensemble" ((D.ensemble.filter fun a => a.dims.getLastD 0 != 0).map (storeArr R.r32))).map (·.1)
-      ++ ["time", "leadtime", "location", "lat", "lon", "altitude", "fcst", "obs"]
+      ++ ["time", "leadtime", "location", "lat", "lon", "altitude"]
+      ++ (optVar "fcst" (D.fcst.map (storeArr R.r32))).map (·.1)
+      ++ (optVar "obs" (D.obs.map (storeArr R.r32))).map (·.1)
       ++ (optVar "pit" (D.pit.map (storeArr R.r32))).map (·.1))
     D.others (fun _ a => storeArr R.r32 a) id
     (by simp [text2nc, List.map_append, Function.comp_def])
@@ -947,7 +948,9 @@ end t2n
 dataset `D` whose numbers `R` leaves alone — float32-representable data — reading the file `text2nc.py`
 writes for `D` gives `D` back EXACTLY, in every attribute: times, lead times, location ids and metadata,
 thresholds + probabilities, quantile levels + values, obs, fcst, pit, ensemble members, other fields,
-variable name, units and the discrete masses x0 / x1. -/
+variable name, units and the discrete masses x0 / x1 — INCLUDING WHICH FIELDS EXIST: an input without
+observations (forecasts) converts to a file without observations (forecasts), `obs = none` on both sides, not
+to a file whose observations are all missing.  No assumption that obs / fcst are present. -/
 theorem C10_text2nc (R : Rounding) (D : Dataset) (hc : Convertible R D) :
     (ncAssemble (text2nc R D)).map NcInput.dataset = .ok D := by
   have htime := t_time R D hc
@@ -989,13 +992,15 @@ theorem C10_text2nc (R : Rounding) (D : Dataset) (hc : Convertible R D) :
     | cons a as => simp only [List.isEmpty_cons, Bool.false_eq_true, if_false]
                    exact clean_storeVec _ _ (h ▸ hc.quantiles)
   · show (V.var? "obs").map cleanArr = D.obs
-    obtain ⟨a, ha, hk⟩ := hc.obs
-    rw [hobs, ha]
-    simp [clean_storeArr _ a hk]
+    rw [hobs]
+    cases h : D.obs with
+    | none => rfl
+    | some a => simp [clean_storeArr _ a (hc.obs a h)]
   · show (V.var? "fcst").map cleanArr = D.fcst
-    obtain ⟨a, ha, hk⟩ := hc.fcst
-    rw [hfcst, ha]
-    simp [clean_storeArr _ a hk]
+    rw [hfcst]
+    cases h : D.fcst with
+    | none => rfl
+    | some a => simp [clean_storeArr _ a (hc.fcst a h)]
   · show (V.var? "pit").map cleanArr = D.pit
     rw [hpit]
     cases h : D.pit with
@@ -1088,6 +1093,27 @@ private theorem D1_conv : Convertible ⟨id, id⟩ D1 := by
 example : (ncAssemble (text2nc ⟨id, id⟩ D1)).map NcInput.dataset = .ok D1 ∧
     D1.ensemble.isSome ∧ D1.var.x0 = some (.fin 0) :=
   ⟨C10_text2nc ⟨id, id⟩ D1 D1_conv, rfl, rfl⟩
+
+/-- a text file without an obs column (forecasts and a quantile only): the converted file has NO obs
+variable (before 5c8853e it had one, all missing), and reading it back gives the dataset, `obs = none` -/
+private def D2 : Dataset :=
+  { times := [.fin 1325376000], leads := [.fin 0, .fin 6],
+    locs := [⟨.fin 3, .fin 60, .fin 10.75, .fin 94⟩],
+    thresholds := [], quantiles := [.fin 0.5],
+    obs := none, fcst := some ⟨[1, 2, 1], [.fin 2, .nan]⟩,
+    pit := none, ensemble := none, cdf := none, x := some ⟨[1, 2, 1, 1], [.fin 1.5, .fin 3]⟩,
+    others := [],
+    var := { name := "Precip", units := ['%'], x0 := none, x1 := none } }
+
+private theorem D2_conv : Convertible ⟨id, id⟩ D2 := by
+  constructor
+  case units => exact Or.inl rfl
+  all_goals (simp [D2, Keeps, okNum, reservedNames] <;> norm_num)
+
+example : (ncAssemble (text2nc ⟨id, id⟩ D2)).map NcInput.dataset = .ok D2 ∧ D2.obs = none ∧
+    (text2nc ⟨id, id⟩ D2).var? "obs" = none ∧ ((text2nc ⟨id, id⟩ D2).var? "fcst").isSome ∧
+    ((ncAssemble (text2nc ⟨id, id⟩ D2)).map (·.obs)) = .ok none :=
+  ⟨C10_text2nc ⟨id, id⟩ D2 D2_conv, rfl, by decide +kernel, by decide +kernel, by decide +kernel⟩
 
 example : detect true true true false = .ok .netcdf ∧ detect false true true true = .ok .text :=
   ⟨(C10_detect true true false).1, (C10_detect true true true).2.2.2.1⟩
